@@ -377,10 +377,8 @@ def index_value(cx, v, key, pc):
         cx.err(pc)
         return Poison
     if isinstance(v, dict):
-        if key in v and type(key) in (str, int):
-            for k in v:
-                if k == key and type(k) is type(key):
-                    return v[k]
+        if type(key) in (str, int, bool) and key in v:     # python's key equality: 1, True (and 1.0) are one key
+            return v[key]
         cx.err(pc)
         return Poison
     if isinstance(v, Seq):
@@ -451,7 +449,7 @@ def ev(cx, n, env, pc):
     if isinstance(n, ast.Dict):
         out = {}
         for k, v in zip(n.keys, n.values):
-            if not isinstance(k, ast.Constant) or type(k.value) not in (str, int):
+            if not isinstance(k, ast.Constant) or type(k.value) not in (str, int, bool):
                 raise EncodingError("dict literal with a non-constant key")
             out[k.value] = ev(cx, v, env, pc)
         return out
